@@ -16,9 +16,9 @@ Ltac step_with H :=
 Lemma lvl_eqb_eq a b : lvl_eqb a b = true -> a = b.
 Proof. destruct a, b; cbn; congruence. Qed.
 
-Lemma admission_ok P C : admission_checks P C = Ok tt -> n_lvl P = n_lvl C /\ n_ver P = n_ver C.
+Lemma acceptance_ok P C : acceptance_checks P C = Ok tt -> n_lvl P = n_lvl C /\ n_ver P = n_ver C.
 Proof.
-  unfold admission_checks.
+  unfold acceptance_checks.
   destruct (_ && _ && _); [discriminate|].
   destruct (lvl_eqb (n_lvl P) (n_lvl C)) eqn:L; cbn; [|discriminate].
   destruct (streqb_spec (n_ver P) (n_ver C)); cbn; [|discriminate].
@@ -282,8 +282,8 @@ Lemma append_attached_spec U B p c :
   spec (append_attached p c) (fun s => K U B s /\ addable U s c p) (fun _ s => K U B s) (K U B).
 Proof.
   intros s (HK & NU & Hu & Hb & Hf). unfold append_attached. cbn [mbind node_of lift].
-  destruct (admission_checks (getn s p) (getn s c)) as [[]|x] eqn:A; [|exact HK].
-  destruct (admission_ok _ _ A) as [Hl Hv].
+  destruct (acceptance_checks (getn s p) (getn s c)) as [[]|x] eqn:A; [|exact HK].
+  destruct (acceptance_ok _ _ A) as [Hl Hv].
   destruct (oid_eqb (n_parent (getn s c)) p) eqn:Ep.
   - apply (do_append_spec U B p c s).
     refine (conj HK (conj NU (conj (conj Hu (conj Hb _)) (conj Hl Hv)))). now apply oid_eqb_eq.
@@ -505,8 +505,8 @@ Proof.
   destruct ((if negb (pointing (getn s c) p) then point_to c p else ret tt) s) as [s1 [[]|x]]; [|exact Hstep].
   destruct Hstep as (HK1' & Hp1 & Hl1 & Hn1). pose proof (W _ HK1') as HK1. cbn [mbind node_of lift].
   destruct (is_valid_child t (getn s1 p) (getn s1 c)) as [[]|x]; cbn [negb mbind node_of lift]; try exact HK1.
-  destruct (admission_checks (getn s1 p) (getn s1 c)) as [[]|x] eqn:A; [|exact HK1].
-  destruct (admission_ok _ _ A) as [Hlv Hvr].
+  destruct (acceptance_checks (getn s1 p) (getn s1 c)) as [[]|x] eqn:A; [|exact HK1].
+  destruct (acceptance_ok _ _ A) as [Hlv Hvr].
   apply (do_insert_spec U B p i c bi s1).
   destruct (cand_unfold U' B s1 c HK1' (or_intror eq_refl)) as (_ & _ & _ & X).
   refine (conj HK1 (conj NU (conj Hp1 (conj (X p) (conj Hlv (conj Hvr _)))))).
